@@ -165,7 +165,9 @@ class ExpandedTraceback:
         frames = list(stack)
         # A SyntaxError has to be handled differently to actually get its output:
         # https://docs.python.org/3/library/traceback.html#traceback.print_exception
-        if issubclass(type(self.exception), SyntaxError) and None not in (self.exception.lineno, self.exception.offset):
+        # (a SyntaxError raised by the student's own code can carry anything as its position)
+        if (issubclass(type(self.exception), SyntaxError) and
+                isinstance(self.exception.lineno, int) and isinstance(self.exception.offset, int)):
             offset = self.exception.offset
             if IS_AT_LEAST_PYTHON_310 and not IS_SKULPT:
                 end_lineno = self.exception.end_lineno
